@@ -10,7 +10,7 @@ MISSING = '__missing__'
 
 JSONRPC_ALPHA = [MISSING, '2.0', '1.0', 2.0, 2, None, True, [], {}, '2.00', ' 2.0']
 ID_ALPHA = [MISSING, None, 0, 1, -1, 2 ** 63, 10 ** 30, 1.0, 1.5, '', 'a', '1', True, False, [], {}, 'é\u0000\U0001F600']
-METHOD_ALPHA = [MISSING, 'fac1', 'fac2', 'ok', 'noargs', 'echo', 'kwonly', 'rpcerr', 'typed', 'boom', 'ctxm', 'view.vm',
+METHOD_ALPHA = [MISSING, 'whoami', 'ctxp', 'fac1', 'fac2', 'ok', 'noargs', 'echo', 'kwonly', 'rpcerr', 'typed', 'boom', 'ctxm', 'view.vm',
                 'view._hidden', 'view', 'nope', '', 1, None, True, [], {}]
 PARAMS_ALPHA = [MISSING, [], {}, [1], [1, 2], {'a': 1}, {'a': 1, 'b': 2}, {'z': 0}, None, 1, 's', True,
                 [[1, [2, {'x': None}]]], {'v': {'k': [1.5, 'é', False]}}, [1, 2, 3], {'ctx': 'evil', 'a': 1}]
@@ -117,6 +117,13 @@ def typed_calls(rng: random.Random, full: bool) -> Iterator[Tuple[str, str, List
         yield 'unbound', 'kwonly', p
     for p in ([], [5], {'a': 5}, {}):
         yield 'ctx', 'ctxm', p
+        yield 'ctx', 'ctxp', p
+    for p in ([], {}):
+        yield 'ctx', 'whoami', p
+    for p in ([1], {'ctx': 'evil'}, {'a': 1}):
+        yield 'ctx-unbound', 'whoami', p
+    for p in ({'ctx': 'evil'}, [1, 2], {'zz': 1}):
+        yield 'ctx-unbound', 'ctxp', p
     for p in ({'ctx': 'evil'}, {'ctx': 'evil', 'a': 1}, [1, 2], {'a': 1, 'zz': 2}):
         yield 'ctx-unbound', 'ctxm', p
     codes = RPC_CODES if full else RPC_CODES[:6] + [rng.choice(RPC_CODES[6:])]
